@@ -164,8 +164,15 @@ func (r *Run) SpecMustHold(what string, o TLCOpts) *TLCResult {
 	if res.Violated != "" || !res.OK {
 		Infra("specification check %q failed in TLC (%s): %s\n%s", what, o.Module, res.Violated, res.Output)
 	}
-	if o.Coverage && len(res.CoverageZero) > 0 {
-		Infra("vacuity: actions never taken in %q: %v", what, res.CoverageZero)
+	for _, a := range o.Expect {
+		if c, ok := res.Coverage[a]; !ok || c[1] == 0 {
+			Infra("vacuity: action %s was never taken in %q (coverage %v)", a, what, res.Coverage)
+		}
+	}
+	if len(o.Expect) > 0 {
+		r.mu.Lock()
+		r.tlcRuns[len(r.tlcRuns)-1]["action_coverage"] = res.Coverage
+		r.mu.Unlock()
 	}
 	return res
 }
